@@ -248,7 +248,9 @@ def reference_solve(circ):
     for k, (nm, c, p) in enumerate(circ["exposed"]):
         E[pos[(c, p)], k] = 1.0
     M = np.eye(n) - S @ P
-    cond = np.linalg.cond(M) if n else 1.0
+    cond = float(np.linalg.cond(M)) if n else 1.0
+    if not np.isfinite(cond) or cond > 1e13:
+        return np.zeros((ne, ne), complex), float("inf"), np.zeros((n, ne), complex), {"pins": pins, "pos": pos, "P": P, "E": E, "S": S}
     B = np.linalg.solve(M, S @ E) if n else np.zeros((0, ne))
     T = E.T @ B
     return T, cond, B, {"pins": pins, "pos": pos, "P": P, "E": E, "S": S}
